@@ -18,20 +18,14 @@ open MitmVerif.C20
 def isBreak (c : Nat) : Bool := Gen.C20.lineBreaks.contains c
 
 /-- `str.splitlines()` (keepends = False): "\r\n" is one boundary; no empty last line -/
-def splitLinesAux : Text → Text → List Text
-  | [], cur => if cur.isEmpty then [] else [cur.reverse]
-  | c :: cs, cur =>
-    if isBreak c then
-      (if c = 13 then
-        match cs with
-        | 10 :: cs' => cur.reverse :: splitLinesAux cs' []
-        | _ => cur.reverse :: splitLinesAux cs []
-      else cur.reverse :: splitLinesAux cs [])
-    else splitLinesAux cs (c :: cur)
-termination_by t _ => t.length
-decreasing_by all_goals simp_wf <;> omega
+def splitLinesAux : Text → Text → Bool → List Text      -- third argument: the previous character was "\r"
+  | [], cur, _ => if cur.isEmpty then [] else [cur.reverse]
+  | c :: cs, cur, prevCR =>
+    if prevCR && c == 10 then splitLinesAux cs cur false        -- the "\n" of a "\r\n" (the line was emitted at "\r")
+    else if isBreak c then cur.reverse :: splitLinesAux cs [] (c == 13)
+    else splitLinesAux cs (c :: cur) false
 
-def splitLines (s : Text) : List Text := splitLinesAux s []
+def splitLines (s : Text) : List Text := splitLinesAux s [] false
 
 /-- `str.strip()` -/
 def strip (s : Text) : Text := ((s.dropWhile genIsSpace).reverse.dropWhile genIsSpace).reverse
